@@ -21,6 +21,11 @@ Checks (statement of C11, nothing more)
   * same optimum (status class and optimal value, bcc.oracle_lp.close) on the models with well-scaled data (`gen_io.tame`);
   * a second round trip changes nothing (once per format and model).
 
+Witness protocol: every failure carries "witness" and "part".  FIXED part: gen_io.build(family, "fixed", i) for FIXED_MODELS
+(min, precision, above) through all 16 variants, the first two of each family also under both non-default configurations;
+witness `<key>|<family>#<i>[|cfg=(lo, hi)]|<variant>|sort=<bool>|extra=<x>`, every distinct failing witness is reported.
+SEEDED part: gen_io.cases (all families); a member of an input class there has the witness "random:<class>".
+
 Failure keys "<format>:<aspect>" (gen_io.diff_aspects: a consequence of a reported cause is not reported again).  The two
 defects of the shared dict layer found on the unchanged tree have ONE key each for dict / JSON / YAML, decided on the INPUT:
   json:bounds-above-default  a reaction with lower bound > Configuration().upper_bound and loading raises ValueError
@@ -41,6 +46,12 @@ from pathlib import Path
 from bcc import gen_io
 
 KNOWN_KEYS = set()
+# classes decided on the INPUT (NOTES_C11.md).  Their exact witnesses come from the FIXED, seed-independent models
+# gen_io.build(family, "fixed", i) of FIXED_MODELS (all 16 variants; the first two of each family also under the two non-default
+# configurations); members of a class met in the seeded part carry the witness "random:<class>"
+INPUT_CLASS_KEYS = {"json:direction-lost", "json:bounds-above-default", "yaml:second-trip-float-digits"}
+FIXED_MODELS = {"min": 6, "precision": 8, "above": 4}
+SEEDED_CAP = 2000        # distinct witnesses kept per key from the seeded part (the fixed part is never capped)
 
 SKIP_ASPECTS = ("groups", "group-name", "group-kind", "group-members", "group-notes", "group-annotation")
 CONFIGS = [(-7.0, 7.0), (-10000.0, 10000.0)]
@@ -171,8 +182,9 @@ def _exc_text(e):
     return f"{type(e).__name__}: {str(e)[:160]}"
 
 
-def check_model(model, variants, tmp, tag, replay_base=None):
-    """-> (n_checks, [failure dict])"""
+def check_model(model, variants, tmp, tag, replay_base=None, case_id="?", seeded=False):
+    """-> (n_checks, [failure dict]); witness `<key>|<case_id>|<variant>|sort=..|extra=..`, or random:<class> for a member of an
+    input class met in the seeded part"""
     import cobra
     cfg = cobra.Configuration()
     fails = []
@@ -187,7 +199,10 @@ def check_model(model, variants, tmp, tag, replay_base=None):
     def add(key, text, v):
         rp = dict(replay_base or {})
         rp.update({"variant": v[0], "sort": v[1], "extra": v[2], "key": key})
-        fails.append({"key": key, "failure": f"[{v[0]}, sort={v[1]}{'' if v[2] is None else ', ' + repr(v[2])}] {text}", "replay": rp})
+        w = (f"random:{key}" if (seeded and key in INPUT_CLASS_KEYS)
+             else f"{key}|{case_id}|{v[0]}|sort={v[1]}|extra={v[2]}")
+        fails.append({"key": key, "witness": w, "part": "seeded" if seeded else "fixed",
+                      "failure": f"[{v[0]}, sort={v[1]}{'' if v[2] is None else ', ' + repr(v[2])}] {text}", "replay": rp})
 
     for k, v in enumerate(variants):
         variant, sort, extra = v
@@ -250,10 +265,18 @@ def run_case(fam, seed, idx, config, tmp, variants=None):
         if config is not None:
             cfg.bounds = tuple(config)
         model = gen_io.build(fam, seed, idx)
-        vs = variants if variants is not None else variants_for(idx, reduced=config is not None)
+        fixed = seed == "fixed"
+        if variants is not None:
+            vs = variants
+        elif fixed:
+            vs = [v for v in variants_for(idx) if not v[0].startswith("yaml")] + YAML_VARIANTS
+        else:
+            vs = variants_for(idx, reduced=config is not None)
+        cid = (f"{fam}#{idx}" if fixed else f"{fam}@{seed}#{idx}") + ("" if config is None else f"|cfg={tuple(config)}")
         n, fails = check_model(model, vs, tmp, f"{fam}_{idx}",
                                replay_base={"kind": "model", "family": fam, "seed": seed, "index": idx,
-                                            "config": list(config) if config is not None else None})
+                                            "config": list(config) if config is not None else None},
+                               case_id=cid, seeded=not fixed)
         if config is not None:
             for f in fails:
                 f["failure"] = f"(Configuration().bounds = {tuple(config)}) " + f["failure"]
@@ -293,7 +316,9 @@ def run(tier: str, seed: int) -> dict:
     t0 = time.time()
     before = cobra.Configuration().bounds
     base = gen_io.cases(tier, seed, per_family=PER_FAMILY[tier])
-    cases = [(f, s, i, None) for f, s, i in base]
+    fixed_cases = [(fam, "fixed", i, None) for fam, k in FIXED_MODELS.items() for i in range(k)]
+    fixed_cases += [(fam, "fixed", i, cfgb) for fam in FIXED_MODELS for i in range(2) for cfgb in CONFIGS]
+    cases = fixed_cases + [(f, s, i, None) for f, s, i in base]
     for j, cfgb in enumerate(CONFIGS):
         cases += [(f, s, i, cfgb) for f, s, i in base if (i + j) % 4 == 0]
     random.Random(seed).shuffle(cases)
@@ -311,7 +336,8 @@ def run(tier: str, seed: int) -> dict:
         for u, r in zip(retry, gen_io.run_units(_unit, retry)):
             if isinstance(r, gen_io.Crashed):
                 fam, sd, idx, config = u[0][0]
-                crashes.append({"key": "io:process-aborted",
+                crashes.append({"key": "io:process-aborted", "part": "fixed" if sd == "fixed" else "seeded",
+                                "witness": f"io:process-aborted|{fam}{'#' if sd == 'fixed' else '@' + str(sd) + '#'}{idx}|cfg={config}",
                                 "failure": f"the process checking model ({fam}, {sd}, {idx}, config={config}) died with exit code "
                                            f"{r.exitcode}",
                                 "replay": {"kind": "model", "family": fam, "seed": sd, "index": idx, "key": "io:process-aborted",
@@ -332,21 +358,27 @@ def run(tier: str, seed: int) -> dict:
     per = {}
     for f in fails:
         per[f["key"]] = per.get(f["key"], 0) + 1
-    fails.sort(key=lambda f: (f["key"], f["replay"]["config"] is not None, f["replay"]["index"], f["replay"]["family"],
-                              str(f["replay"])))
-    kept, seen = [], {}
+    # one failure per distinct witness; the fixed part is reported completely, the seeded part up to SEEDED_CAP per key
+    fails.sort(key=lambda f: (f["key"], f["part"] != "fixed", len(f["witness"]), f["witness"], str(f["replay"])))
+    kept, seen, n_seeded = [], set(), {}
     for f in fails:
-        k = (f["key"], f["replay"]["config"] is not None)
-        seen[k] = seen.get(k, 0) + 1
-        if seen[k] <= 1:
-            kept.append(f)
+        if f["witness"] in seen:
+            continue
+        if f["part"] != "fixed":
+            n_seeded[f["key"]] = n_seeded.get(f["key"], 0) + 1
+            if n_seeded[f["key"]] > SEEDED_CAP:
+                continue
+        seen.add(f["witness"])
+        kept.append(f)
     return {
         "evaluations": n,
         "distinct_nontrivial": models,
         "rule": "distinct (family, seed, index, configuration) cases; each goes through 13 (5 under a non-default configuration) "
                 "save/load variants, each compared (obs, optimum), plus one second trip per format",
         "bounds": {"families": {k: sum(1 for c in base if c[0] == k) for k in gen_io.FAMILIES},
-                   "cases_default_config": len(base), "cases_non_default_config": len(cases) - len(base), "configs": CONFIGS,
+                   "fixed_models": FIXED_MODELS, "fixed_cases": len(fixed_cases),
+                   "cases_default_config": len(base), "cases_non_default_config": len(cases) - len(base) - len(fixed_cases),
+                   "configs": CONFIGS,
                    "variants_per_model": 13, "variants_per_model_non_default_config": 5, "max_metabolites": 4,
                    "max_internal_reactions": 5, "failures_total": len(fails), "failures_per_key": per,
                    "wall_s": round(time.time() - t0, 1)},
